@@ -7,7 +7,7 @@ PROPS["C03"] = dict(
     rule="A case = (processor configuration, thread programs, exporter behaviour, schedule).",
     assumptions=SCHED_ASSUMPTIONS + [SC_NOTE],
     runs=[
-        run("bsp", "c03_sched", "bsp_sched", "rc", dict(procs=6, cases=1500), dict(procs=10, cases=20000)),
-        run("blp", "c03_sched", "blp_sched", "rc", dict(procs=6, cases=1500), dict(procs=6, cases=20000)),
+        run("bsp", "c03_sched", "bsp_sched", "rc", dict(procs=6, cases=1500), dict(procs=10, cases=20000), asan_extra=SCHED_ASAN),
+        run("blp", "c03_sched", "blp_sched", "rc", dict(procs=6, cases=1500), dict(procs=6, cases=20000), asan_extra=SCHED_ASAN),
     ],
 )
